@@ -17,6 +17,7 @@ std types promise for the operations the nostd types offer.  For each machine:
    a disagreement between the spec and std is a broken check, never a violation.
 """
 import concurrent.futures as cf
+import hashlib
 import json
 import os
 import threading
@@ -199,7 +200,8 @@ class Span(Machine):
                     sim=dict(num=4000 if thorough else 600, depth=9, consts=self._c(3, True, 8), cfgrec=rec),
                     wit=["WriteSeenByOther", "EmptyAtEnd", "StaticTail", "ConstStatic", "SelfAssign"])]
         if thorough:
-            out.append(dict(name="all3-len2", consts=self._c(2, True, 3), cfgrec={"maxlen": 2}, depth=3, sim=None, wit=[]))
+            out.append(dict(name="all3-len2", consts=self._c(2, True, 3), cfgrec={"maxlen": 2}, depth=3, sim=None, wit=[],
+                            ninst=2))
         return out
 
     def beh(self, b, cfgrec):
@@ -243,7 +245,7 @@ class FunctionRef(Machine):
         return [dict(name="all%d" % (5 if thorough else 4), consts=self._c(True, 5 if thorough else 4), cfgrec={"m": 4},
                      depth=5 if thorough else 4,
                      sim=dict(num=3000 if thorough else 400, depth=13, consts=self._c(True, 12), cfgrec={"m": 4}),
-                     wit=["SharedState", "CopyThenCall", "Rebind", "NullAfterBound"])]
+                     wit=["SharedState", "CopyThenCall", "Rebind", "NullAfterBound"], ninst=2 if thorough else None)]
 
     def beh(self, b, cfgrec):
         return {"m": "fref", "cfg": cfgrec, "steps": b["steps"]}
@@ -297,7 +299,7 @@ def gen_job(ctx, m, g):
         rec = m.beh(b, g["cfgrec"])
         if g.get("ninst"):
             rec["ninst"] = g["ninst"]
-        res.append((rec, "%s:all-depth-%d" % (g["name"], g["depth"])))
+        res.append(_pack(rec, "%s:all-depth-%d" % (g["name"], g["depth"])))
     return res
 
 
@@ -313,7 +315,20 @@ def sim_job(ctx, m, g):
     if not out:
         raise Broken("simulate %s/%s printed no behaviour" % (m.module, g["name"]))
     log("tlc %-70s %-9s %8d walks    %6.1fs" % ("%s: random walks (%s)" % (m.module, g["name"]), r.status, len(out), r.wall))
-    return [(m.beh(b, s["cfgrec"]), "%s:random-walk" % g["name"]) for b in out]
+    return [_pack(m.beh(b, s["cfgrec"]), "%s:random-walk" % g["name"]) for b in out]
+
+
+def _pack(rec, src):
+    """Behaviours are kept as compact JSON text (hundreds of thousands of them in the thorough tier):
+    (digest for de-duplication and a deterministic order, text, per-behaviour statistics)."""
+    body = json.dumps(rec, sort_keys=True, separators=(",", ":"))
+    ops = {}
+    for st in rec["steps"]:
+        ops[st["op"]] = ops.get(st["op"], 0) + 1
+    stats = {"ops": ops, "steps": len(rec["steps"]),
+             "dev_steps": sum(1 for st in rec["steps"] if st.get("dev")),
+             "plain": not any(st.get("dev") or st.get("alts") for st in rec["steps"])}
+    return (hashlib.sha1(body.encode()).digest(), '{"src":%s,' % json.dumps(src) + body[1:], src, stats)
 
 
 def tlc_phase(ctx):
@@ -331,18 +346,16 @@ def tlc_phase(ctx):
     with cf.ThreadPoolExecutor(max_workers=4) as ex:
         futs = [(m, ex.submit(fn, *args)) for (m, fn, args) in jobs]
         for m, f in futs:
-            for rec, src in f.result():
-                k = json.dumps(rec, sort_keys=True)
-                if k not in behs[m.key]:
-                    rec["src"] = src
-                    behs[m.key][k] = rec
+            for digest, text, src, stats in f.result():
+                if digest not in behs[m.key]:
+                    behs[m.key][digest] = (text, stats)
                     counts[m.key][src] = counts[m.key].get(src, 0) + 1
     for m in MACHINES:
         for a in m.actions:
             if ctx.extra["actions_generated"][m.key].get(a, 0) == 0:
                 raise Broken("vacuity: action %s of %s was never generated in model checking" % (a, m.module))
     ctx.extra["behaviours_by_source"] = counts
-    return {k: [v[x] for x in sorted(v)] for k, v in behs.items()}
+    return {k: [v[x] for x in sorted(v)] for k, v in behs.items()}     # lists of (json text, statistics)
 
 
 # ------------------------------------------------------------------------------------------------
@@ -360,14 +373,14 @@ def build_all():
 
 
 def run_harness(ctx, exe, behs, ninst, tag, shards=4):
-    """Replays behs (dicts with 'id') and returns the parsed records."""
+    """Replays behs (JSON texts carrying an 'id') and returns the parsed records."""
     if not behs:
         return [], {}
     path = ctx.rundir.file("beh-%s.ndjson" % tag)
     t0 = time.time()
     with open(path, "w") as f:
         for b in behs:
-            f.write(json.dumps(b) + "\n")
+            f.write((b if isinstance(b, str) else json.dumps(b)) + "\n")
     shards = max(1, min(shards, len(behs) // 50 + 1))
     recs = []
     summ = {}
@@ -413,6 +426,8 @@ def classify(ctx, recs, by_id, ninst):
             if len(ctx.violations) >= MAX_REPORTED:
                 continue            # all are counted; only the first MAX_REPORTED get a replay file
         b = by_id.get((x.get("m"), x.get("id")))
+        if isinstance(b, str):
+            b = json.loads(b)
         replay = {"behaviour": b, "record": x, "instances": ninst}
         where = "%s behaviour #%s (%s) step %s %s" % (x.get("m"), x.get("id"), (b or {}).get("src"), x.get("step"), x.get("op", ""))
         if kind == "mismatch":
@@ -434,11 +449,10 @@ def binding_selftest(ctx, exes, behs_by_machine, ninst):
     corrupted; the replayer must reject it (and must accept the uncorrupted one, which the main run shows)."""
     done = {}
     for m in MACHINES:
-        behs = behs_by_machine[m.key]
         cand = None
-        for b in behs:
-            if len(b["steps"]) >= 2 and not any(s.get("dev") or s.get("alts") for s in b["steps"]):
-                cand = b
+        for text, stats in behs_by_machine[m.key]:
+            if stats["steps"] >= 2 and stats["plain"]:
+                cand = json.loads(text)
                 break
         if cand is None:
             raise Broken("binding self-test: no behaviour to corrupt for " + m.key)
@@ -485,15 +499,21 @@ def run(ctx):
     all_behs = tlc_phase(ctx)
     nid = 0
     by_id = {}
+    texts = {}
     for m in MACHINES:
-        for b in all_behs[m.key]:
+        lst = []
+        for text, stats in all_behs[m.key]:
             nid += 1
-            b["id"] = nid
-            by_id[(m.key, nid)] = b
+            t = '{"id":%d,' % nid + text[1:]
+            by_id[(m.key, nid)] = t
+            lst.append(t)
+            if stats["steps"] >= 2 or m.key == "sv":
+                ctx.distinct.add(nid)
+        texts[m.key] = lst
     broken = []
     totals = {}
     for binary in ("main", "span"):
-        behs = [b for m in MACHINES if m.binary == binary for b in all_behs[m.key]]
+        behs = [t for m in MACHINES if m.binary == binary for t in texts[m.key]]
         recs, summ = run_harness(ctx, exes[binary], behs, ninst, binary, shards=8)
         for k, v in summ.items():
             totals[k] = totals.get(k, 0) + v
@@ -505,10 +525,6 @@ def run(ctx):
     n = sum(len(v) for v in all_behs.values())
     ctx.traces += n
     ctx.evaluations = totals.get("instances", 0)
-    for m in MACHINES:
-        for b in all_behs[m.key]:
-            if len(b["steps"]) >= 2 or m.key == "sv":
-                ctx.distinct.add((m.key, b["id"]))
     ctx.extra["behaviours_replayed"] = {m.key: len(all_behs[m.key]) for m in MACHINES}
     ctx.extra["replay_totals"] = totals
     # which side of the self-move-assignment don't-care band the real types take (recorded, never judged)
@@ -518,21 +534,18 @@ def run(ctx):
     ops = {}
     for m in MACHINES:
         o = ops.setdefault(m.key, {})
-        for b in all_behs[m.key]:
-            for s in b["steps"]:
-                o[s["op"]] = o.get(s["op"], 0) + 1
-        for a in m.actions:
-            pass
+        for _, stats in all_behs[m.key]:
+            for k, v in stats["ops"].items():
+                o[k] = o.get(k, 0) + v
     ctx.extra["replayed_operation_counts"] = ops
     # rare conditions really present in the replay set (measured, not assumed)
-    own = all_behs["own"]
-    ctx.extra["own_self_copy_sole_owner_steps"] = sum(1 for b in own for s in b["steps"] if s.get("dev"))
-    ctx.extra["own_self_move_steps"] = sum(1 for b in own for s in b["steps"] if s["op"] == "AssignMoveSelf")
+    ctx.extra["own_self_copy_sole_owner_steps"] = sum(st["dev_steps"] for _, st in all_behs["own"])
+    ctx.extra["own_self_move_steps"] = ops["own"].get("AssignMoveSelf", 0)
     if ctx.extra["own_self_copy_sole_owner_steps"] == 0 or ctx.extra["own_self_move_steps"] == 0:
         raise Broken("vacuity: the replay set contains no self-assignment step")
     for m in MACHINES:
         bs = all_behs[m.key]
-        pick = [b for b in bs if "witness" in b.get("src", "")][:1] or bs[:1]
+        pick = [json.loads(bs[i][0]) for i in (0, len(bs) // 2)][:2 if m.key == "own" else 1]
         for b in pick:
             ctx.sample({"machine": m.module, "source": b.get("src"), "cfg": b.get("cfg"),
                         "steps": [{k: v for k, v in s.items() if k in ("op", "v", "w", "d", "t", "x", "y", "i", "how", "pos", "n", "dev")}
